@@ -44,7 +44,7 @@ def container(x, kind):
     if kind == "range":
         return range(x[0], x[-1] + 1)
     if kind == "array":
-        return np.array(x)
+        return np.array(x) if len(x) else np.array([], dtype=int)
     if kind == "keys":
         return {v: None for v in x}.keys()
     raise ValueError(kind)
@@ -318,6 +318,14 @@ def specs(tier):
                     continue
                 for full in (True, False):
                     out.append(dict(kind="rho", fn=name, n=n, edges=es, rho=rho, tmax=3 if model == "SIS" else "inf", full=full))
+        # a collection of size zero is a collection too: nobody is infected, nothing ever happens
+        for n, es in [gr.NAMED["P3"], (3, [(0, 1)])]:
+            for R0 in [()] + ([(1,)] if hasR0 else []):
+                for ic in ("list", "tuple", "set", "array", "keys"):
+                    for full in (False, True):
+                        for tmin in (0, 1.5):
+                            out.append(dict(kind="containers", fn=name, n=n, edges=es, I0=[], R0=list(R0), icont=ic, rcont="list", style="kw",
+                                            tmin=tmin, tmax=tmin + 3 if model == "SIS" else "inf", full=full))
         # node label types (strings, tuples as in grid graphs, frozensets, floats, False/True/2): a single node or a collection
         for lab in LABELS:
             for n, es in [gr.NAMED["P3"], (4, [(0, 1), (1, 2)])]:
